@@ -78,6 +78,10 @@ func plan(seed int64, tier string) []vrt.Case {
 	}
 	add(params{Kind: "course"})
 	add(params{Kind: "optional", Seed: seed})
+	// several goroutines composing reports at the same time (a tracker that reports for several stations)
+	for i := 0; i < 4; i++ {
+		add(params{Kind: "concurrent", Lo: i, Hi: i + 1, Seed: seed})
+	}
 	return cs
 }
 
@@ -261,6 +265,52 @@ func run(c vrt.Case) vrt.Obs {
 			evalPair(&o, v[0], v[1])
 		}
 		o.Sample = map[string]any{"kind": "random", "first_pair": first}
+	case "concurrent":
+		// four goroutines format positions, courses and full reports of their own at the same time; nothing is shared
+		// between them, so each must get what it would get alone
+		vrt.Parallel(&o, 4, func(g int, po *vrt.Obs) {
+			r := vrt.Rand(p.Seed, "c20-concurrent", p.Lo, g)
+			for k := 0; k < 4000; k++ {
+				lat := (r.Float64()*2 - 1) * 90
+				lon := (r.Float64()*2 - 1) * 180
+				if k%5 == 0 { // around whole minutes, where rounding carries
+					lat = clamp(math.Trunc(lat*60)/60-r.Float64()*1e-6, 90)
+					lon = clamp(math.Trunc(lon*60)/60+r.Float64()*1e-6, 180)
+				}
+				evalPair(po, lat, lon)
+				if k%4 == 0 {
+					d, mag := r.Intn(361), r.Intn(2) == 0
+					po.Evals++
+					vrt.Guard(po, func() {
+						cr, err := catalog.NewCourse(d, mag)
+						if err != nil || cr == nil {
+							po.Violate("course-error", "NewCourse(%d,%v) failed: %v", d, mag, err)
+							return
+						}
+						speed := float64(r.Intn(400)) / 8
+						cmt := fmt.Sprintf("station %d report %d", g, k)
+						lines, body, ok := bodyLines(po, catalog.PosReport{Date: date, Lat: &lat, Lon: &lon, Course: cr, Speed: &speed, Comment: cmt})
+						if !ok {
+							return
+						}
+						want := fmt.Sprintf("%03d%s", d%360, map[bool]string{true: "M", false: "T"}[mag])
+						if got := lines["COURSE"]; len(got) != 1 || got[0] != want {
+							po.Violate("course-value", "concurrent composers: NewCourse(%d,%v) prints %v, want %s; body %q", d, mag, got, want, body)
+						}
+						if got := lines["COMMENT"]; len(got) != 1 || got[0] != cmt {
+							po.Violate("comment-line", "concurrent composers: COMMENT %v for %q", got, cmt)
+						}
+						if got := lines["SPEED"]; len(got) != 1 {
+							po.Violate("optional-line", "concurrent composers: SPEED lines %v", got)
+						} else if f, err := strconv.ParseFloat(got[0], 64); err != nil || math.Abs(f-speed) > 1e-6 {
+							po.Violate("speed-line", "concurrent composers: SPEED %q for %v", got[0], speed)
+						}
+						po.Count("reports_composed_while_other_goroutines_were_composing", 1)
+					})
+				}
+			}
+		})
+		o.Sample = map[string]any{"kind": "concurrent", "goroutines": 4, "positions_each": 4000}
 	case "course":
 		// the sweep runs twice; after a course value has been checked the caller scribbles on it (its fields are
 		// exported and the value is the caller's own): what one caller does to its value must not show in the
